@@ -81,3 +81,39 @@ Proof. vm_compute. reflexivity. Qed.
 (* F20 (fixed): a literal beyond the f64 range is an error through a Value as well *)
 Example C16_ex_F20_overflow : from_value_owned C16_cfa C16_fx0 TF64 (VNum (NLit [49;101;57;57;57])) = VErr NumberOutOfRange 0 0.
 Proof. vm_compute. reflexivity. Qed.
+
+(* ---- the FULL universe (Proofs/ValueDeAgreeKey/Map/Struct/Enum/Misc.v): maps with every key type but f32 (String, char, bool, the twelve
+        integer widths, f64, Option / newtype wrappers, unit-variant enums), structs given as objects or arrays (unknown members skipped, missing
+        Option fields, duplicates), externally tagged enums with all four variant kinds, byte buffers, 128-bit integers — all three routes agree.
+        [claimb] is the computable predicate that is false exactly on the two shapes the property excludes (a zero-length tuple variant on `[]`,
+        a struct variant written as an array), wherever the seed meets them; [ryu_float_form] (needed for the 128-bit targets only): the float
+        printer always writes a fraction or an exponent, as ryu does. *)
+From SJ Require Import Proofs.ValueDeAgreeKey Proofs.ValueDeAgreeMap Proofs.ValueDeAgreeStruct Proofs.ValueDeAgreeEnum Proofs.ValueDeAgreeMisc.
+
+Theorem C16_three_way : forall cf fx fmt32 fmt64 w128 t v,
+  arbitrary_precision cf = false -> ryu_json fmt32 fmt64 -> ryu_reads_back_value cf fmt64 -> (w128 = true -> ryu_float_form fmt64) ->
+  agree_ty_full w128 t = true -> wf_value cf v = true -> claimb (value_de_fuel t) t v = true ->
+  exists bufs c, serialize cf fmt32 fmt64 Compact (sval_of_value v) = Ok bufs /\ concat bufs = render c /\
+    ((limit_disabled cf = false -> (cdepth c <= 127)%nat) ->
+     agree (from_value_owned cf fx t v) (from_input_typed (mkEnv RSlice TEof cf) t (concat bufs))
+     /\ agree (from_value_ref cf fx t v) (from_input_typed (mkEnv RSlice TEof cf) t (concat bufs))
+     /\ same_mod_borrow (from_value_owned cf fx t v) (from_value_ref cf fx t v)).
+Proof. exact ValueDeAgreeMisc.C16_three_way. Qed.
+Print Assumptions C16_three_way.
+
+(* the two excluded shapes are genuine disagreements of the two routes (and claimb is false on them) *)
+Example C16_excluded_tuple0_variant :
+  from_value_owned ex_cfd ex_fx0 (TEnum [([86], VTuple [])]) (VObj [([86], VArr [])]) = VErr (Message MInvalidType) 0 0
+  /\ from_input_typed (mkEnv RSlice TEof ex_cfd) (TEnum [([86], VTuple [])]) [123; 34; 86; 34; 58; 91; 93; 125] = TOk (DVariant [86] (DSeq []))
+  /\ claimb (value_de_fuel (TEnum [([86], VTuple [])])) (TEnum [([86], VTuple [])]) (VObj [([86], VArr [])]) = false.
+Proof. exact C16_ex_tuple0_variant. Qed.
+Example C16_excluded_struct_variant_array :
+  from_value_owned ex_cfd ex_fx0 (TEnum [([86], VStruct [([120], TBool)])]) (VObj [([86], VArr [VBool true])]) = VErr (Message MInvalidType) 0 0
+  /\ from_input_typed (mkEnv RSlice TEof ex_cfd) (TEnum [([86], VStruct [([120], TBool)])]) [123; 34; 86; 34; 58; 91; 116; 114; 117; 101; 93; 125]
+     = TOk (DVariant [86] (DStruct [DBool true]))
+  /\ claimb (value_de_fuel (TEnum [([86], VStruct [([120], TBool)])])) (TEnum [([86], VStruct [([120], TBool)])]) (VObj [([86], VArr [VBool true])]) = false.
+Proof. exact C16_ex_struct_variant_array. Qed.
+(* the hypotheses are satisfiable and the theorem is about something: a run of both routes on a document with an i128 key, a struct with a
+   missing Option field and an unknown member, a tuple variant holding a byte buffer and a u128 *)
+Example C16_full_not_vacuous : ryu_float_form (fun _ => [49; 101; 49; 54]).
+Proof. exact ryu_float_form_instance. Qed.
